@@ -261,7 +261,7 @@ func init() {
 		if ref.Width == 0 {
 			continue
 		}
-		if _, err := of.FindFieldHeaderByName(ref.Name, false); err != nil {
+		if !registered(ref.Name) {
 			continue
 		}
 		name := ref.Name
